@@ -349,8 +349,10 @@ pub fn note_failed(ctx: &Context<'_>, parent: &str, field: &str, node: NodeData,
     });
 }
 
-fn err(fault: Fault, path: &str) -> Error {
-    Error::new(format!("injected {:?} at {}", fault, path))
+fn err(fault: Fault, _path: &str) -> Error {
+    // the same text for every failure of a kind (as a real resolver would produce): no oracle looks at
+    // messages, and code that wrongly keys errors by message must not be helped by unique texts
+    Error::new(format!("injected {:?}", fault))
 }
 
 pub struct PlanGuard;
